@@ -68,6 +68,14 @@ DESIGN_EXTRA = {
             ("MC_BalloonsReconf", "MC_BalloonsReconf_readmit_exited.cfg", "Inv_StoppedHoldsNothing"),       # F-C09-1 shape
             ("MC_BalloonsReconf", "MC_BalloonsReconf_reach.cfg", "Goal_BalloonlessAlive")],                 # reachability
     "C13": [("MC_BalloonsReconf", "MC_BalloonsReconf_none.cfg", None)],
+    # restart + Synchronize with a cache persisted only at some points of some requests: the design passes, the defect
+    # F-C11-1 and the two independently seeded C11 changes are refuted by TLC, the hard situations are reachable
+    "C11": [("Recovery", "MC_Recovery_none.cfg", None),
+            ("Recovery", "MC_Recovery_keep_cached_state.cfg", "Inv_ExactlyLiveHold"),
+            ("Recovery", "MC_Recovery_skip_creating.cfg", "Inv_ExactlyLiveHold"),
+            ("Recovery", "MC_Recovery_skip_same_value.cfg", "Inv_RuntimeEqualsCache"),
+            ("Recovery", "MC_Recovery_reach1.cfg", "Goal_MidRequestCrash"),
+            ("Recovery", "MC_Recovery_reach2.cfg", "Goal_StaleRunning")],
     # F-C05-1 at design level: the strict statement "every live container holds a grant" must be refuted by TLC
     "C03": [("MC_TopologyAware", "MC_TopologyAware_dropped.cfg", "Inv_LiveHoldsGrantStrict")],
 }
@@ -81,8 +89,10 @@ def design_extras(ctx, pid):
     todo = list(DESIGN_EXTRA.get(pid, []))
     if not ctx.quick and pid in ("C09", "C13"):
         todo.append(("MC_BalloonsReconf", "MC_BalloonsReconf_big.cfg", None))
+    if not ctx.quick and pid == "C11":
+        todo.append(("Recovery", "MC_Recovery_big.cfg", None))        # 3 containers: 18 M distinct states, ~4 min
     for i, (mod, cfg, must) in enumerate(todo):
-        r = vlib.tlc(mod, cfg, ctx.path("mcx%d" % i), workers=4, timeout=600)
+        r = vlib.tlc(mod, cfg, ctx.path("mcx%d" % i), workers=4 if ctx.quick else vlib.NCPU, timeout=600 if ctx.quick else 2400)
         if must is None and not r["ok"]:
             raise vlib.Inconclusive("design model check %s did not pass: violated=%s error=%s\n%s" % (cfg, r["violated"], r["error"], r["out"][-2000:]))
         if must is not None and r["violated"] != must:
